@@ -821,3 +821,37 @@ PRESIEVE = register(Stream(
           "checked against 'no prime in 7..163 properly divides the number' in the harness and the bytes against the Lean model "
           "preSieveFinal over the regenerated tables; non-trivial = every case; distinct by the operation"),
     nontrivial=None))
+
+
+def gen_capi(tier, r):
+    q = tier == "quick"
+    ops = []
+    U64T, INVALID = 13, [14, 15, 99, -1, 1000, 2**31 - 1]
+    for ty in INVALID:
+        for a, b in [(0, 100), (100, 0), (0, 0), (UMAX - 10, UMAX)]:
+            ops.append(("invalid-type", f"capi gp {a} {b} {ty}"))
+            ops.append(("invalid-type", f"capi gpnull {a} {b} {ty}"))
+        ops.append(("invalid-type", f"capi gn 5 0 {ty}"))
+        ops.append(("invalid-type", f"capi gn 0 0 {ty}"))
+    for ty in range(0, 14):
+        ops.append(("null-size", f"capi gpnull {r.randrange(0, 1000)} {r.randrange(1000, 5000)} {ty}"))
+        ops.append(("empty", f"capi gp 100 {r.randrange(0, 100)} {ty}"))
+        ops.append(("empty", f"capi gp 24 28 {ty}"))
+        ops.append(("empty", f"capi gn 0 {r.randrange(0, 10**6)} {ty}"))
+    for a, b in [(0, 1000), (10, 5), (UMAX - 1000, UMAX), (MAXPRIME64 + 1, UMAX), (UMAX, UMAX), (0, 0), (2, 2), (3, 2)]:
+        ops.append(("u64", f"capi gp {a} {b} {U64T}"))
+        ops.append(("u64", f"capi gpnull {a} {b} {U64T}"))
+        ops.append(("count", f"capi count {a} {b} 0"))
+    for n, st in [(1, 0), (0, 0), (5, UMAX), (1, MAXPRIME64), (3, 7), (2**62, 0)]:
+        ops.append(("nth", f"capi nth {n} {st} 0"))
+    ops.append(("free", "capi free0 0 0 0"))
+    return ops
+
+CAPI = register(Stream(
+    "capi", gen_capi,
+    rule=("cases = corners of the C error contract: every invalid type code (NULL, *size = 0, errno = EDOM) for generate_primes / "
+          "generate_n_primes, NULL size pointer for all 14 type codes, empty requests (start > stop, no prime in range, n = 0: NULL or "
+          "array, errno untouched), 64-bit arrays compared byte for byte with the C++ API in the same process, count / nth_prime "
+          "against their C++ counterparts incl. failures at the top of the range, primesieve_free(NULL); checked by the harness "
+          "oracle only (no model line); non-trivial = every case; distinct by the operation"),
+    nontrivial=None, use_model=False))
